@@ -135,6 +135,17 @@ class Verifier:
                     uc.set_pending(st, f.name, v)
                 env[p.arg] = uc
                 continue
+            if idx == 0 and fi.cls is not None and fi.name == "__init__" and not fi.cls.is_dataclass and p.arg == "self":
+                # a hand-written constructor: ``self`` is an object under construction without any attribute yet
+                from .state import UnderConstruction
+
+                ci = fi.cls
+                ref = SV(TRefT(ci), smt.fresh_const("self", smt.Ref), fresh=True)
+                st.assume(ref.z != smt.NONE, smt.typ(ref.z) == ex.types.cid(ci), smt.born(ref.z) == ex.born_clock)
+                ex.born_clock += 1
+                ex.set_known_class(ref, ci, st)
+                env[p.arg] = UnderConstruction(ref, ci)
+                continue
             if idx == 0 and fi.cls is not None and fi.kind in ("method", "property") and p.arg == "self":
                 classes = self.receiver_classes(fi, ex, k)
                 if not classes and fi.cls.name in ("Processor",):
@@ -215,6 +226,10 @@ class Verifier:
             old = st.fork()
             ctx.old = old
             outcomes = ex.exec_block(fi.node.body, st.fork())
+            fo = ex.hooks.get("finish_outcomes")
+            if fo is not None:
+                # e.g. a function returning a generator: the outcome of interest is what iterating it to the end yields
+                outcomes = fo(ex, fi, k, outcomes) or outcomes
             ex.frames.pop()
             meta["paths"] = len(outcomes)
             obls: list[Obligation] = list(ex.obligations)
@@ -235,7 +250,7 @@ class Verifier:
                 obls.extend(self.outcome_obligations(ex, k, fi, env, old, r))
             if only_labels is not None:
                 obls = [o for o in obls if f"{key}/{o.label}" in only_labels]
-            results = self.discharge_all(ex, obls, key, env)
+            results = self.discharge_all(ex, obls, key, env) if not getattr(self, "dry_run", False) else []
             # vacuity: the precondition must be satisfiable
             vs = z3.Solver()
             vs.set("timeout", 5000)
@@ -249,6 +264,7 @@ class Verifier:
                 results.append(OblResult(f"{key}/vacuity", key, "vacuity", "", "vacuity", ERROR, reason="no execution path"))
             meta["stats"] = dict(ex.stats)
             meta["assumed_contracts_used"] = sorted(ex.assumed_contracts_used)
+            meta["contracts_used"] = sorted(ex.contracts_used)
         except NoReceiver as e:
             meta["skipped"] = str(e)
             results = []
@@ -490,6 +506,40 @@ def expand_keys(repo: Repo, reg: Registry, pid: str) -> list[str]:
         elif not fi.abstract:
             if key not in out:
                 out.append(key)
+    return out
+
+
+def closure_keys(repo: Repo, reg: Registry, used: list[str]) -> list[str]:
+    """Functions whose contracts were applied at call sites: they must be verified too (a caller is checked against the
+    callee's contract, so the callee has to be checked against it as well).  Virtual contracts expand to every
+    implementation, attribute contracts to every property implementing the attribute; assumed contracts are skipped
+    (they are listed as assumptions)."""
+    out: list[str] = []
+    for ck in used:
+        c = reg.contracts.get(ck)
+        if c is None or c.assumed:
+            continue
+        if ck.startswith("attr:"):
+            attr = ck.rsplit(".", 1)[1]
+            for k2, c2 in reg.contracts.items():
+                if c2.attr and not k2.startswith("attr:") and k2.rsplit(".", 1)[1] == attr and not c2.assumed and k2 not in out:
+                    out.append(k2)
+            continue
+        try:
+            fi = repo.func(ck)
+        except KeyError:
+            continue
+        if c.virtual and fi.cls is not None:
+            for sub in repo.subclasses(fi.cls, concrete_only=False):
+                m = sub.methods.get(fi.name)
+                if m is not None and not m.abstract and not any(m.key.startswith(pfx) for pfx in c.unverified_impls):
+                    k2 = m.key
+                    if k2 in reg.contracts and reg.contracts[k2].assumed:
+                        continue
+                    if k2 not in out:
+                        out.append(k2)
+        elif not fi.abstract and ck not in out:
+            out.append(ck)
     return out
 
 
